@@ -45,6 +45,9 @@ type CatSc struct {
 	OutOps    []CatOp   `json:"out_ops,omitempty"`
 	InHelper  HelperCfg `json:"in_helper"`
 	OutHelper HelperCfg `json:"out_helper"`
+	// Observers is the number of extra threads that only call the read-only port methods
+	// (IsOpen, String, Number) while the lifecycle threads work.
+	Observers int `json:"observers,omitempty"`
 }
 
 type catWorld struct{}
@@ -64,6 +67,9 @@ func (catWorld) Gen(seed uint64, tier string) core.Scenario {
 	r := core.NewRand(seed)
 	s := &CatSc{SchedSeed: r.Uint64()}
 	mode := r.Weighted(40, 35, 25) // in only, out only, both
+	if r.Chance(1, 3) {
+		s.Observers = r.Range(1, 2)
+	}
 	if mode == 0 || mode == 2 {
 		s.InHelper = HelperCfg{Gap: r.PickInt(1, 1, 2, 5, 20)}
 		if r.Chance(1, 5) {
@@ -244,8 +250,12 @@ func (s *CatSc) Shrinks(try0 func(core.Scenario) bool) bool {
 	}) {
 		return true
 	}
-	for _, h := range []*HelperCfg{&s.InHelper, &s.OutHelper} {
-		_ = h
+	if s.Observers > 0 {
+		c := *s
+		c.Observers = 0
+		if try(&c) {
+			return true
+		}
 	}
 	simplify := func(mod func(c *CatSc) bool) bool {
 		c := *s
@@ -703,6 +713,26 @@ func (s *CatSc) execute(env *core.Env) (ro runOut) {
 					yield()
 				}
 			}))
+		}
+		for o := 0; o < s.Observers; o++ {
+			startThread(func() {
+				for i := 0; i < 40; i++ {
+					if len(s.InOps) > 0 {
+						if ins[0].IsOpen() {
+							logEvent("observe", 1, 0, "in")
+						}
+						_ = ins[0].String()
+						_ = ins[0].Number()
+					}
+					if len(s.OutOps) > 0 {
+						if outs[0].IsOpen() {
+							logEvent("observe", 1, 0, "out")
+						}
+						_ = outs[0].String()
+					}
+					sleepSlots(3)
+				}
+			})
 		}
 		// the root waits in fake time for the lifecycle threads, with a watchdog
 		limit := now() + int64(len(s.InOps)+len(s.OutOps)+4)*callBudget
